@@ -712,7 +712,8 @@ def task(t, res):
             r, c = t["shape"]
             g = G(r, c, structured_bits(r, c, t["name"]))
             structured_graph(g, res, heavy_pairs=t["heavy"])
-            res.sample(dict(structured=t["name"], shape=[r, c], edges=g.E, components=len(R.components(g.adj))), cap=1)
+            if t["name"] == "mod0":
+                res.sample(dict(structured=t["name"], shape=[r, c], edges=g.E, components=len(R.components(g.adj))), cap=1)
         if ch.unowned_draws != u0:
             raise choice.HarnessError("as_adj_list drew randomness the choice oracle does not own")
 
